@@ -282,5 +282,6 @@ pub fn property() -> Property {
             direct: None,
         }],
         assumptions: &["NaN is never passed to a setter (no documented meaning)"],
+        enumerate: None,
     }
 }
